@@ -207,23 +207,191 @@ FAMILIES = {
 }
 
 
+
+# ---------------------------------------------------------------- streaming_body witness (native/stream_witness.rs)
+def stream_line(sc):
+    return "|".join([sc["id"], str(sc["chunk"]), hexs(sc["ae"]) if sc.get("ae") is not None else "-", str(sc.get("level", 6)), sc.get("method", "GET"), ",".join(sc["ops"])])
+
+
+def parse_stream_obs(line):
+    f = line.rstrip("\n").split("|")
+    hdrs = [(kv.split("=", 1)[0], bytes.fromhex(kv.split("=", 1)[1])) for kv in f[2].split(",") if kv]
+    res = [x for x in f[3].split(",") if x]
+    nowriter = bool(res and res[0] == "nowriter")
+    if nowriter:
+        res = res[1:]
+    panic = None if f[4] == "-" else bytes.fromhex(f[4]).decode("utf8", "replace")
+    return {"id": f[0], "status": int(f[1]), "headers": hdrs, "results": res, "nowriter": nowriter, "panic": panic}
+
+
+def oracle_stream(pid, sc, ob):
+    """Property oracles for the raw (identity) streaming body, evaluated on one observed run."""
+    ops, res = sc["ops"], ob["results"]
+    if ob["panic"] is not None:
+        return "panic: " + ob["panic"] if pid in ("C08", "C11", "C20") else None
+    cs = sc["chunk"]
+    accepted = b""
+    delivered = b""
+    fill = 0                # bytes in the writer's private buffer
+    reader_gone = writer_gone = aborted = False
+    parked = False
+    terminal = None
+    avail_unseen = False    # something was published since the consumer parked
+    for op, r0 in zip(ops, res):
+        r, _, wk = r0.partition("!")
+        wakes = int(wk) if wk else 0
+        c, arg = op[0], op[1:]
+        if c in "WL":
+            data = bytes.fromhex(arg)
+            if r.startswith("w") and r[1:].isdigit():
+                k = int(r[1:])
+                if pid == "C08" and (k > len(data) or (len(data) > 0 and k == 0 and not aborted and not reader_gone)):
+                    return "write accepted %d of %d bytes" % (k, len(data))
+                accepted += data[:k]
+                published = fill + k >= cs
+                fill = 0 if published else fill + k
+                if pid == "C10" and published and parked and wakes == 0 and not reader_gone:
+                    return "chunk published while the consumer was parked, but no wake-up"
+                if published and wakes:
+                    parked = False
+                if pid == "C11" and reader_gone and published:
+                    return "body dropped, yet a chunk-completing write returned Ok"
+            elif r == "lo":
+                accepted += data
+                n = fill + len(data)
+                if pid == "C11" and reader_gone and n >= cs:
+                    return "body dropped, yet write_all completing a chunk returned Ok"
+                if pid == "C10" and n >= cs and parked and wakes == 0 and not reader_gone:
+                    return "chunk published while the consumer was parked, but no wake-up"
+                if n >= cs and wakes:
+                    parked = False
+                fill = n % cs
+            elif r in ("we", "le"):
+                if pid == "C08" and not (aborted or reader_gone):
+                    return "write to a live body failed"
+                if pid == "C11" and aborted is False and reader_gone is False:
+                    return "write failed without abort/disconnect"
+        elif c == "F":
+            if r == "fo":
+                if pid == "C11" and reader_gone and fill > 0:
+                    return "body dropped, yet flush of %d buffered bytes returned Ok" % fill
+                if pid == "C11" and aborted:
+                    return "flush after abort returned Ok"
+                if pid == "C10" and fill > 0 and parked and wakes == 0:
+                    return "flush published data while the consumer was parked, but no wake-up"
+                if fill > 0 and wakes:
+                    parked = False
+                fill = 0
+            elif r == "fe":
+                if pid == "C08" and not (aborted or reader_gone):
+                    return "flush on a live body failed"
+        elif c == "A":
+            if not writer_gone and not aborted:
+                aborted = True
+                if pid == "C10" and parked and wakes == 0 and not reader_gone and terminal is None:
+                    return "abort while the consumer was parked, but no wake-up"
+                if wakes:
+                    parked = False
+        elif c == "X":
+            if not writer_gone:
+                writer_gone = True
+                if pid == "C10" and parked and wakes == 0 and not aborted and not reader_gone:
+                    return "writer dropped while the consumer was parked, but no wake-up"
+                if wakes:
+                    parked = False
+                if not aborted:
+                    fill = 0
+        elif c == "R":
+            reader_gone = True
+        elif c == "P" and r != "p-":
+            pre, ev = r.split(">", 1)
+            lo, up, eos = pre.split(":")
+            eos = eos == "1"
+            kind = ev[0]
+            if pid == "C12" and eos and kind != "N":
+                return "is_end_stream() true but next poll gave %s" % kind
+            if pid == "C11" and aborted and terminal is None and eos:
+                return "is_end_stream() true while an abort error is pending"
+            if kind == "D":
+                d = bytes.fromhex(ev[1:])
+                if pid == "C20" and terminal is not None and len(d) > 0:
+                    return "data after terminal event"
+                if pid == "C08" and len(d) == 0:
+                    return "empty data frame"
+                delivered += d
+                if pid in ("C08", "C11") and not accepted.startswith(delivered):
+                    return "delivered bytes are not a prefix of the accepted bytes"
+                parked = False
+            elif kind == "E":
+                if pid == "C08" and not aborted:
+                    return "error without abort"
+                if terminal is None:
+                    terminal = "E"
+                parked = False
+            elif kind == "N":
+                if pid == "C11" and aborted and terminal is None:
+                    return "clean end after abort"
+                if pid == "C08" and terminal is None and not aborted and delivered != accepted:
+                    return "clean end but delivered != accepted"
+                if terminal is None:
+                    terminal = "N"
+                parked = False
+            elif kind == "P":
+                if pid == "C10" and (writer_gone or aborted):
+                    return "Pending although the writer is gone / aborted"
+                parked = True
+    return None
+
+
+def fam_stream_ops(maxlen=5, chunks=(1, 2, 3)):
+    out = []
+    k = 0
+    for cs in chunks:
+        alphabet = ["W61", "W6162", "L" + "63" * cs, "F", "P", "A", "X", "R"]
+        for n in range(1, maxlen + 1):
+            for seq in itertools.product(alphabet, repeat=n):
+                if "R" not in seq and "A" not in seq and n == maxlen and seq[-1] != "P":
+                    pass
+                k += 1
+                out.append({"id": "st%d" % k, "chunk": cs, "ops": list(seq) + ["P", "P", "P"]})
+    return out
+
+
+def fam_stream_disconnect():
+    out = []
+    k = 0
+    for cs in (1, 2, 4):
+        for pre in ([], ["W61"], ["W61", "F"], ["W61", "F", "P"], ["L" + "62" * cs], ["P"]):
+            for post in (["W61", "F"], ["L" + "63" * cs], ["F"], ["W61", "W62", "F"], ["L" + "63" * (cs + 1), "F"]):
+                k += 1
+                out.append({"id": "dc%d" % k, "chunk": cs, "ops": pre + ["R"] + post})
+    return out
+
+
+FAMILIES[("chunker", "Reader::drop")] = ("stream_witness", fam_stream_disconnect)
+FAMILIES[("chunker", "Reader")] = ("stream_witness", lambda: fam_stream_ops(4))
+FAMILIES[("chunker", "Writer")] = ("stream_witness", lambda: fam_stream_ops(4))
+
+
 def try_upgrade(pid, ob, repo=None):
     """Look for a concrete failing input for the failed obligation `ob` of property `pid` on the real code."""
     fam = None
+    best = -1
     for (unit, fnprefix), v in FAMILIES.items():
-        if ob["unit"] == unit and (ob["fn"] or "").startswith(fnprefix):
-            fam = v
+        if ob["unit"] == unit and (ob["fn"] or "").startswith(fnprefix) and len(fnprefix) > best:
+            fam, best = v, len(fnprefix)
     if fam is None:
         ob["native_replay"] = {"status": "no witness family for this obligation", "reproduced": False}
         return
     test, gen = fam
     scs = gen()
-    lines = run_native(test, scs, repo)
+    is_stream = test == "stream_witness"
+    mk = stream_line if is_stream else scenario_line
+    lines = run_native(test, [mk(x) for x in scs], repo)
     for sc, ln in zip(scs, lines):
-        o = parse_obs(ln)
-        why = oracle_serve(pid, sc, o)
+        why = oracle_stream(pid, sc, parse_stream_obs(ln)) if is_stream else oracle_serve(pid, sc, parse_obs(ln))
         if why:
-            ob["native_replay"] = {"status": "reproduced on the real code", "reproduced": True, "test": test, "scenario": sc, "scenario_line": scenario_line(sc),
+            ob["native_replay"] = {"status": "reproduced on the real code", "reproduced": True, "test": test, "scenario": sc, "scenario_line": mk(sc),
                                    "observation": ln, "violates": pid, "what": why, "searched": len(scs)}
             return
     ob["native_replay"] = {"status": "no failing input among %d scenarios" % len(scs), "reproduced": False, "searched": len(scs)}
@@ -240,8 +408,10 @@ def replay_file(path, repo=None):
         print("no concrete input recorded (no-failing-input-found); the obligation above is the violation")
         return 0
     ln = run_native(nr["test"], [nr["scenario_line"]], repo)[0]
-    o = parse_obs(ln)
-    why = oracle_serve(rec["property"], nr["scenario"], o)
+    if nr["test"] == "stream_witness":
+        why = oracle_stream(rec["property"], nr["scenario"], parse_stream_obs(ln))
+    else:
+        why = oracle_serve(rec["property"], nr["scenario"], parse_obs(ln))
     print("scenario   :", nr["scenario_line"])
     print("observation:", ln)
     if why:
@@ -253,6 +423,20 @@ def replay_file(path, repo=None):
 
 if __name__ == "__main__":
     fam = sys.argv[1]
+    if fam in ("st", "dc"):
+        scs = fam_stream_ops(int(sys.argv[2]) if len(sys.argv) > 2 else 4) if fam == "st" else fam_stream_disconnect()
+        lines = run_native("stream_witness", [stream_line(x) for x in scs])
+        bad = {}
+        for sc, ln in zip(scs, lines):
+            o = parse_stream_obs(ln)
+            for pid in ("C08", "C10", "C11", "C12", "C20"):
+                why = oracle_stream(pid, sc, o)
+                if why:
+                    bad[pid] = bad.get(pid, 0) + 1
+                    if bad[pid] < 4:
+                        print(pid, why, stream_line(sc), "\n   ", ln)
+        print(len(scs), "scenarios; oracle failures:", bad)
+        sys.exit(0)
     scs = {"mp": fam_multipart_faults, "sg": fam_single_faults}[fam]()
     lines = run_native("serve_witness", scs)
     bad = 0
